@@ -284,6 +284,12 @@ def tustin_case_impl(args):
     h = 2 / K                                   # so that the code's k = 2/h is the plain symbol k
     wit = {s: sp.Rational(i + 2, 7) * (-1) ** i for i, s in enumerate(sorted(A.free_symbols | B.free_symbols | C.free_symbols | D.free_symbols, key=str))}
     wit.update({K: 40, w: 3, T: sp.Rational(3, 40)})
+    # prewarp == "stored": the discrete model CARRIES a prewarp frequency (it came from a prewarped c2d) but the conversions are asked for WITHOUT prewarping
+    # (argument omitted / 0): the documented constant is then k = 2/h; the prewarp constant is a different symbol here, so using it instead shows
+    stored = prewarp == "stored"
+    prewarp = bool(prewarp) and not stored
+    K2 = sp.Symbol("k2", positive=True)
+    wit[K2] = 55
     reg = alg.Regime("tustin", wit)
     pw = alg.S(w) if prewarp else 0
     tan_args = []
@@ -291,16 +297,20 @@ def tustin_case_impl(args):
     class NPT(NPS):
         def tan(self, x):
             tan_args.append(alg.expr_of(x))
-            return alg.S(w / K)          # i.e. tan(w h/2) =: w/k, so that the code's k = prewarp/tan(...) is the plain symbol k
+            return alg.S(w / (K2 if stored else K))          # i.e. tan(w h/2) =: w/k, so that the code's k = prewarp/tan(...) is the plain symbol k (k2 in the "stored" variant)
     with alg.Shimmed(ssm, reg, {"np": NPT(), "la": symla}):
         c = ssm.SSModel(_S(A), _S(B), _S(C), _S(D))
         d = c.c2d(alg.S(h), method="tustin", prewarp=pw)
-        c2 = d.d2c(method="tustin", prewarp=pw)
-        dd = ssm.SSModel(_S(A), _S(B), _S(C), _S(D), alg.S(h), "tustin", pw)     # an arbitrary DISCRETE model
-        cc = dd.d2c(method="tustin", prewarp=pw)
+        if stored:
+            d.prewarp = alg.S(w)
+            c2 = d.d2c(method="tustin") if True else None
+        else:
+            c2 = d.d2c(method="tustin", prewarp=pw)
+        dd = ssm.SSModel(_S(A), _S(B), _S(C), _S(D), alg.S(h), "tustin", alg.S(w) if stored else pw)     # an arbitrary DISCRETE model
+        cc = dd.d2c(method="tustin", prewarp=pw) if not stored else dd.d2c(method="tustin", prewarp=0)
         d2 = cc.c2d(alg.S(h), method="tustin", prewarp=pw)
     items = []
-    tag = "SSModel tustin%s" % ("+prewarp" if prewarp else "")
+    tag = "SSModel tustin%s" % ("+prewarp" if prewarp else (" [model carries a prewarp frequency, conversion asked without]" if stored else ""))
     kk = K                                      # the bilinear constant (2/h, or w/tan(w h/2) when prewarping)
     for lab, m1 in (("d2c(c2d(model))", c2), ("c2d(d2c(discrete model))", d2)):
         for nm, X0 in (("A", A), ("B", B), ("C", C), ("D", D)):
@@ -591,7 +601,7 @@ def run(tier, seed):
     P = report.pool()
     r1 = P.map_async(expmint_case, ecases, chunksize=1)
     r2 = P.map_async(epq_case, pcases, chunksize=1)
-    r3 = P.map_async(_alg_job, [("tustin_case_impl", (False,)), ("tustin_case_impl", (True,)), ("hold_case_impl", ("zoh",)),
+    r3 = P.map_async(_alg_job, [("tustin_case_impl", (False,)), ("tustin_case_impl", (True,)), ("tustin_case_impl", ("stored",)), ("hold_case_impl", ("zoh",)),
                                 ("hold_case_impl", ("zoha",)), ("hold_case_impl", ("foh",)), ("d2c_case_impl", ("zoh",)),
                                 ("d2c_case_impl", ("zoha",)), ("d2c_case_impl", ("foh",))], chunksize=1)
     items, paths = [], {}
